@@ -1,15 +1,13 @@
 use ::unimock::MockFn as _;
-macro_rules! stamp { ($($item:tt)*) => { #[::entrait::entrait(pub T, mock_api = Mk, unimock, export, no_deps)] $($item)* } }
-stamp! {
-fn f1(a1: i32, (x2, y2): (i32, i32)) -> String {
+macro_rules! stamp { ([$($params:tt)*] $body:block) => { #[::entrait::entrait(pub T, mock_api = Mk, unimock, export, no_deps)] fn f1($($params)*) -> String $body } }
+stamp! { [a1: i32, (x2, y2): (i32, i32)] {
     let __args: String = String::new() + &::vt::js(&format!("{:?}", a1)) + "," + &::vt::js(&format!("{:?}", x2)) + "," + &::vt::js(&format!("{:?}", y2));
     ::vt::emit("enter", &format!("\"f\":\"c000150::f1\",\"deps\":{},\"args\":[{}]", ::vt::js(&String::from("-")), __args));
     
     let __val = format!("c000150::f1({})", __args);
     ::vt::emit("exit", &format!("\"f\":\"c000150::f1\",\"val\":{}", ::vt::js(&__val)));
     __val
-}
-}
+} }
 
 pub fn run() {
     { ::vt::emit("scenario", "\"case\":\"c000150\",\"sc\":1");
